@@ -53,8 +53,8 @@ CHECKS = {
     "C07": dict(
         cat="exploration",
         technique="runtime monitoring: reference-model monitor (Fock/Jordan-Wigner/shift-lattice matrix model R4 + dense solver R1 on truncated matrices, double cut-off rule)",
-        text="Operator-valued outputs are denoted as matrices on a truncated Fock space and compared with the matrix block diagonalisation of the denoted input on low-lying states; operator identities U†U=1, U†HU=H_tilde checked through the same denotation.",
-        note="Trusted: the matrix model vf/models/fock.py; truncation artefacts excluded by agreement of two cut-offs.",
+        text="Operator-valued outputs are denoted as matrices on a truncated Fock space and compared with the matrix block diagonalisation of the denoted input on low-lying states; operator identities U†U=1, U†HU=H_tilde checked through the same denotation. The known defect F23 (a level resonant with the continuation of a level at a non-existent occupation) is reported as KNOWN-FINDING only when the case has such a state and every mismatching element lies on a perturbation chain through it; its smallest failing input is the first case of every run.",
+        note="Trusted: the matrix model vf/models/fock.py; truncation artefacts excluded by agreement of two cut-offs; known_findings.json.",
         ref="DESIGN §2 C07",
     ),
     "C08": dict(
